@@ -256,7 +256,20 @@ def _pending(si, ti, mi, ni, pre):
     nexts = list(sch.nodes.values())
     if not (0 <= ti < len(types) and 0 <= mi < len(marks) and 0 <= ni < len(nexts) and 0 <= pre <= len(marks)):
         return rt.SKIP
-    ti, mi, ni, pre = rt.pick(ti, 0, len(types) - 1), rt.pick(mi, 0, len(marks) - 1), rt.pick(ni, 0, len(nexts) - 1), rt.pick(pre, 0, len(marks))
+    if "tlo" in P and not (P["tlo"] <= ti < P["thi"]):
+        return rt.SKIP
+    ti = rt.pick(ti, 0, len(types) - 1)
+    if ti != 0:
+        # with a typed context the next node's type must not matter: two representative values (an inline and a block type)
+        names = [t.name for t in nexts]
+        keep = [names.index(x) for x in ("text", "paragraph") if x in names]
+        ok_ni = False
+        for kx in keep:
+            if ni == kx:
+                ok_ni = True
+        if not ok_ni:
+            return rt.SKIP
+    mi, ni, pre = rt.pick(mi, 0, len(marks) - 1), rt.pick(ni, 0, len(nexts) - 1), rt.pick(pre, 0, len(marks))
     T, M, N = types[ti], marks[mi], nexts[ni]
     req = {k: "v" for k, a in M.attrs.items() if a.is_required}
     mark = M.create(req or None)
@@ -295,7 +308,11 @@ def obligations(tier, seed):
     T = 200 if tier == "quick" else 900
     obs = []
     for si in range(len(PENDING_SCHEMAS) if tier != "quick" else 2):
-        obs.append({"name": "pending/%s" % PENDING_SCHEMAS[si], "fn": "ob_pending", "P": {"si": si}, "timeout": T})
+        from engine import schemas as _s
+        nt = len(_s.get(PENDING_SCHEMAS[si]).nodes) + 1
+        for lo in range(0, nt, 6):
+            obs.append({"name": "pending/%s/%d" % (PENDING_SCHEMAS[si], lo), "fn": "ob_pending",
+                        "P": {"si": si, "tlo": lo, "thi": lo + 6}, "timeout": T})
     for shape in range(4):
         for link in (False, True):
             extra = [{}]
